@@ -61,8 +61,12 @@ together with `__len__` = payload size would drop header-only packets. -/
 theorem gen_every_packet_dispatched :
     (Gen.C07.recvSkipIsNone || !Gen.C07.packetTruthyByLen) = true := by decide
 
+/-- the match condition of the dispatch loop uses port and channel read from the packet once, before any
+callback was given the packet object (fix D71) -/
+theorem gen_match_captured : Gen.C07.matchCapturedHeader = true := by decide
+
 theorem code_is_fixed : Variant.code = Variant.fixed := by
-  simp [Variant.code, Variant.fixed, gen_dispatch_snapshot, gen_remove_snapshot]
+  simp [Variant.code, Variant.fixed, gen_dispatch_snapshot, gen_remove_snapshot, gen_match_captured]
 
 /-! ## 0. Every packet object handed out by the link is dispatched -/
 
@@ -168,7 +172,7 @@ theorem later_packets_processed (beh : Beh) (hq : AllPacketCallbacksQuiet beh) (
     (runPkts Variant.code beh st pkts).dead = false ∧
     pktsOf (runPkts Variant.code beh st pkts).trace = pktsOf st.trace ++ pkts.map (·.hdr) := by
   rw [runPkts_eq_run Variant.code beh no_packet_skipped]
-  exact run_processes_all Variant.code gen_dispatch_snapshot beh hq _ st halive
+  exact run_processes_all Variant.code gen_dispatch_snapshot gen_match_captured beh hq _ st halive
 
 /-! ## 4. Removing a registration stops deliveries for that registration only -/
 
@@ -206,7 +210,7 @@ theorem packets_in_order (beh : Beh) (st : St) (pkts : List Pkt) (hb : ∀ p ∈
     deliveries (runPkts Variant.code beh st pkts).trace
       = deliveries st.trace ++ expectedDeliveries Variant.code beh st (pkts.map (·.hdr)) := by
   rw [runPkts_eq_run Variant.code beh no_packet_skipped]
-  exact run_deliveries Variant.code gen_dispatch_snapshot beh _ st
+  exact run_deliveries Variant.code gen_dispatch_snapshot gen_match_captured beh _ st
     (fun h hh => by obtain ⟨p, hp, rfl⟩ := List.mem_map.mp hh; exact hb p hp)
 
 /-- Closed form when the callbacks do not touch the registry (they may raise, at any position, any number of
@@ -218,7 +222,7 @@ theorem packets_in_order_static (beh : Beh) (hs : ∀ tr, ∀ a ∈ beh tr, a = 
       pkts.flatMap (fun p => Ev.pkt p.hdr :: (st.regs.filter (specMatches · p.hdr)).map Ev.call) ∧
     (runPkts Variant.code beh st pkts).regs = st.regs ∧ (runPkts Variant.code beh st pkts).dead = false := by
   rw [runPkts_eq_run Variant.code beh no_packet_skipped]
-  have := run_static Variant.code gen_dispatch_snapshot beh hs (pkts.map (·.hdr)) st halive hall
+  have := run_static Variant.code gen_dispatch_snapshot gen_match_captured beh hs (pkts.map (·.hdr)) st halive hall
     (fun h hh => by obtain ⟨p, hp, rfl⟩ := List.mem_map.mp hh; exact hb p hp)
   rw [List.flatMap_map] at this
   exact this
@@ -250,13 +254,46 @@ theorem all_packet_callbacks_get_every_packet (beh : Beh) (hq : AllPacketCallbac
     allCallsOf (newEvents st (receive Variant.code beh st p)) = st.all ∧
     pktsOf (newEvents st (receive Variant.code beh st p)) = [p.hdr] := by
   rw [receive_is_dispatch]
-  obtain ⟨ext, hext⟩ := handlePacket_ext Variant.code gen_dispatch_snapshot beh st p.hdr
-  have h1 := handlePacket_allCalls Variant.code gen_dispatch_snapshot beh hq st p.hdr halive
-  have h2 := handlePacket_pkts Variant.code gen_dispatch_snapshot beh st p.hdr halive
+  obtain ⟨ext, hext⟩ := handlePacket_ext Variant.code gen_dispatch_snapshot gen_match_captured beh st p.hdr
+  have h1 := handlePacket_allCalls Variant.code gen_dispatch_snapshot gen_match_captured beh hq st p.hdr halive
+  have h2 := handlePacket_pkts Variant.code gen_dispatch_snapshot gen_match_captured beh st p.hdr halive
   rw [newEvents_of_ext hext]
   rw [hext, allCallsOf, List.filterMap_append] at h1
   rw [hext, pktsOf, List.filterMap_append] at h2
   exact ⟨List.append_cancel_left h1, List.append_cancel_left h2⟩
+
+/-! ## 6b. Callbacks that change the packet object they are given -/
+
+/-- Matching is against the header **as received**: the calls for a packet are the same whether or not
+callbacks (all-packet or port callbacks, at any position) rewrite port/channel of the packet object while it
+is being dispatched - `beh'` is `beh` with arbitrary `setPort`/`setChan` actions (`pk.set_header`,
+`pk.port = ..`, `pk.channel = ..`) inserted anywhere.  (Instance of `dispatch_calls`, which holds for every
+behaviour; stated separately because it is the clause the pre-D71 code violates.) -/
+theorem mutation_isolated (beh beh' : Beh) (hdr : Nat) (hh : hdr < 256) (st st' : St)
+    (hregs : st'.regs = st.regs) :
+    callsOf (newEvents st' (dispatch Variant.code beh' hdr st'))
+      = callsOf (newEvents st (dispatch Variant.code beh hdr st)) := by
+  rw [dispatch_calls beh' hdr hh, dispatch_calls beh hdr hh, hregs]
+
+def regP15a : Reg := portReg 15 1
+def regP15b : Reg := portReg 15 2
+def regP13 : Reg := portReg 13 3
+/-- callback 1 (first on port 15) turns the packet around: `pk.set_header(13, 1)` -/
+def behTurnAround : Beh := fun tr =>
+  if tr.getLast? = some (.call regP15a) then [.setPort 13, .setChan 1] else []
+
+/-- before D71 (match re-reads the live packet object): the second port-15 registration misses a packet
+received on port 15 and a port-13 registration gets it -/
+theorem live_header_counterexample :
+    callsOf (handlePacket Variant.liveHeader behTurnAround
+        { St.init with regs := [regP15a, regP15b, regP13] } 0xF1).trace = [regP15a, regP13] ∧
+    ¬ SpecHolds [regP15a, regP15b, regP13] 0xF1
+        (newEvents St.init (handlePacket Variant.liveHeader behTurnAround
+          { St.init with regs := [regP15a, regP15b, regP13] } 0xF1)) := by decide
+
+/-- the repaired code on the same input: both port-15 registrations, nobody else -/
+example : callsOf (handlePacket Variant.fixed behTurnAround
+    { St.init with regs := [regP15a, regP15b, regP13] } 0xF1).trace = [regP15a, regP15b] := by decide
 
 /-! ## 7. The code before the fix (D7): live-list iteration violates the specification -/
 
@@ -268,14 +305,14 @@ def behSelfRemove : Beh := fun tr => if tr.getLast? = some (.call regA) then [.r
 
 /-- with live-list iteration, `[A, B, C]` on one port and `A` removing itself delivers to `A` and `C` only -/
 theorem live_dispatch_skips :
-    callsOf (dispatch Variant.original behSelfRemove 0x90 { St.init with regs := [regA, regB, regC] }).trace
+    callsOf (dispatch Variant.original behSelfRemove 0x90 { St.init with regs := [regA, regB, regC], pk := (9, 0) }).trace
       = [regA, regC] := by decide
 
 /-- the unchanged code does not satisfy the dispatch specification (D7) -/
 theorem live_dispatch_counterexample :
     ¬ (∀ (regs : List Reg) (beh : Beh) (hdr : Nat), regs.Nodup → hdr < 256 →
-        SpecHolds regs hdr (newEvents { St.init with regs := regs }
-          (dispatch Variant.original beh hdr { St.init with regs := regs }))) := by
+        SpecHolds regs hdr (newEvents { St.init with regs := regs, pk := (pkPort hdr, pkChan hdr) }
+          (dispatch Variant.original beh hdr { St.init with regs := regs, pk := (pkPort hdr, pkChan hdr) }))) := by
   intro h
   exact absurd (h [regA, regB, regC] behSelfRemove 0x90 (by decide) (by decide)) (by decide)
 
@@ -289,10 +326,10 @@ theorem live_remove_counterexample :
 example : [regA, regB, regC].Nodup := by decide
 example : (0x93 : Nat) < 256 ∧ regB.matches 0x93 = true ∧ (portReg 8 2).matches 0x93 = false := by decide
 /-- the repaired dispatcher on the D7 witness: all three get the packet, then `A` is gone -/
-example : callsOf (run Variant.fixed behSelfRemove { St.init with regs := [regA, regB, regC] } [0x90, 0x93]).trace
+example : callsOf (run Variant.fixed behSelfRemove { St.init with regs := [regA, regB, regC], pk := (9, 0) } [0x90, 0x93]).trace
     = [regA, regB, regC, regB, regC] := by decide
-example : SpecHolds [regA, regB, regC] 0x90 (newEvents { St.init with regs := [regA, regB, regC] }
-    (dispatch Variant.fixed behSelfRemove 0x90 { St.init with regs := [regA, regB, regC] })) := by decide
+example : SpecHolds [regA, regB, regC] 0x90 (newEvents { St.init with regs := [regA, regB, regC], pk := (9, 0) }
+    (dispatch Variant.fixed behSelfRemove 0x90 { St.init with regs := [regA, regB, regC], pk := (9, 0) })) := by decide
 /-- a behaviour satisfying `AllPacketCallbacksQuiet` in which port callbacks do raise -/
 example : AllPacketCallbacksQuiet (fun tr => match tr.getLast? with | some (.call _) => [.raise] | _ => []) := by
   intro tr c h; simp [h, NoRaise]
